@@ -229,8 +229,10 @@ func (f *Filter) hitTube(tubeIndex, q int) error {
 
 // Called when end of a tube is reached
 // A point in the tube -- the point with maximal q -- is (Tlen-1,q-1).
+// A tube is maxError diagonals wider than tubeOffset, so the tube that ends
+// here is the one that starts tubeWidth-1 diagonals below this point.
 func (f *Filter) tubeEnd(q int) error {
-	diagIndex := f.diagIndex(f.target.Len()-1, q-1)
+	diagIndex := f.diagIndex(f.target.Len()-1, q-1) - f.maxError
 	tubeIndex := f.tubeIndex(diagIndex)
 	tube := &f.tubes[tubeIndex%cap(f.tubes)]
 
